@@ -339,7 +339,7 @@ void poly<T, Degree, NbModuli>::set(ZO_dist const& mode) {
     const T pm = params<T>::P[cm] - 1u;
     /* sample {-1, 0, 1} */
     for (size_t i = 0; i < Degree; ++i)
-      *ptr++ = rnd[i] <= mode.rho ? pm + (rnd[i] & 2) : 0u; 
+      *ptr++ = rnd[i] <= mode.rho ? ((rnd[i] & 2) ? T(1) : pm) : T(0);
   }
 }
 
@@ -385,7 +385,7 @@ void poly<T, Degree, NbModuli>::set(hwt_dist const& mode) {
     const T pm = params<T>::P[cm] - 1u;
     rnd_ptr = rnd.begin();
     for (size_t pos : hitted)
-      _data[pos + offset] = pm + ((*rnd_ptr++) & 2U); // {-1, 1}
+      _data[pos + offset] = ((*rnd_ptr++) & 2U) ? T(1) : pm; // {1, -1}
   }
   std::memset(hitted.data(), 0x0, hitted.size() * sizeof(size_t)); // erase from memory
 }
